@@ -67,6 +67,61 @@ theorem Inv.answer_call (inv : Inv w net) {a0 : Nat} {r0 : CallRec V} {rest : Li
     simp only [countP_cons_toNat, List.countP_nil]
     cases ansResKey a s (some a0, r0.serial, ans) <;> simp <;> omega
 
+theorem cvtReply_not_timeout (retSig : Option String) (sig : String) (body : List V) :
+    (cvtReply retSig sig body).isTimeout = false := by
+  unfold cvtReply
+  simp only
+  repeat' (first | rfl | split)
+
+theorem outcomeOf_not_timeout (retSig : Option String) (content : Reply V) :
+    (outcomeOf retSig content).isTimeout = false := by
+  cases content with
+  | ret sig body => exact cvtReply_not_timeout retSig sig body
+  | err name text => rfl
+
+/-- The pending table and the completion counts after the call with serial `s0`, not completed so far, completes
+(by its reply or by its deadline). -/
+theorem Inv.after_completion (inv : Inv w net) {s0 : Nat} {o : Outcome V}
+    (hK : (net.cl c).completions.countP (complKey s0) = 0) :
+    (∀ r, r ∈ (net.cl c).issued → ((net.cl c).completions ++ [(s0, o)]).countP (complKey r.serial) = 0 →
+      pLookup (pErase (net.cl c).pending s0) r.serial = some r.retSig) ∧
+    (∀ s v, pLookup (pErase (net.cl c).pending s0) s = some v → ∃ r, r ∈ (net.cl c).issued ∧ r.serial = s ∧
+      v = r.retSig ∧ ((net.cl c).completions ++ [(s0, o)]).countP (complKey s) = 0) ∧
+    (∀ s, ((net.cl c).completions ++ [(s0, o)]).countP (complKey s) ≤ 1) ∧
+    (∀ s, s ∈ (net.cl c).late → 1 ≤ ((net.cl c).completions ++ [(s0, o)]).countP (complKey s)) := by
+  have cnt : ∀ s, ((net.cl c).completions ++ [(s0, o)]).countP (complKey s) =
+      (net.cl c).completions.countP (complKey s) + (s0 == s).toNat := by
+    intro s
+    rw [List.countP_append, countP_cons_toNat, List.countP_nil]; simp [complKey]
+  refine ⟨?_, ?_, ?_, ?_⟩
+  · intro r hr hz
+    rw [cnt] at hz
+    have hne : ¬ s0 = r.serial := by
+      intro e; simp [e] at hz
+    rw [pLookup_erase, if_neg (fun e => hne e.symm)]
+    exact inv.pend c r hr (by omega)
+  · intro s v hp
+    rw [pLookup_erase] at hp
+    by_cases hs : s = s0
+    · simp [hs] at hp
+    · simp only [hs, if_false] at hp
+      obtain ⟨r, hr, h1, h2, h3⟩ := inv.pend_inv c s v hp
+      refine ⟨r, hr, h1, h2, ?_⟩
+      rw [cnt, h3]
+      have : (s0 == s) = false := by simpa using fun e => hs e.symm
+      simp [this]
+  · intro s
+    rw [cnt]
+    by_cases hs : s0 = s
+    · rw [← hs, hK]; simp
+    · have : (s0 == s) = false := by simpa using hs
+      have := inv.compl_le c s
+      simp [*]
+  · intro s hs
+    rw [cnt]
+    have := inv.late_ok c s hs
+    omega
+
 theorem Inv.step_toClient (inv : Inv w net) (c : Nat) (beh : Behaviour V) :
     Inv w (step w net (.toClient c beh)) := by
   simp only [step]
@@ -152,18 +207,83 @@ theorem Inv.step_toClient (inv : Inv w net) (c : Nat) (beh : Behaviour V) :
             omega
     | reply sn rs sender dest content =>
       obtain ⟨r0, hr0, hrs, hdn, ans, hans, hcont⟩ := ok
-      have hpos : 1 ≤ (net.cl c).down.countP (isReply r0.serial) := by
-        rw [hdown, List.countP_cons]
-        simp [isReply, hrs]
-      have htok := inv.tok c r0 hr0
-      have hz : (net.cl c).completions.countP (complKey r0.serial) = 0 := by
-        simp only [tokens, stages, Stages.total] at htok
-        omega
-      have hp := inv.pend c r0 hr0 hz
-      rw [hrs] at hp
-      rw [Net.upd_congr net c _ (fun cl => completed cl rest rs (outcomeOf r0.retSig content))
-        (by simp [receive, complete, completed, hp])]
-      exact inv.caller_complete hdown ⟨r0, hr0, hrs, hdn, ans, hans, by rw [hcont]⟩
+      cases hp : pLookup (net.cl c).pending rs with
+      | some v =>
+        obtain ⟨r1, hr1, hs1, hv, hK⟩ := inv.pend_inv c rs v hp
+        have e10 : r1 = r0 := inv.serial_uniq c r1 r0 hr1 hr0 (by rw [hs1, hrs])
+        subst e10
+        rw [Net.upd_congr net c _ (fun cl => callerMoved cl rest (pErase (net.cl c).pending rs)
+          [(rs, outcomeOf r1.retSig content)] []) (by simp [receive, complete, callerMoved, hp, hv])]
+        obtain ⟨h1, h2, h3, h4⟩ := inv.after_completion (c := c) (o := outcomeOf r1.retSig content) hK
+        apply inv.caller_move
+        · intro x hx; rw [hdown]; exact List.mem_cons_of_mem _ hx
+        · intro x hx
+          rw [List.mem_singleton] at hx; subst hx
+          exact ⟨r1, hr0, hrs, Or.inr ⟨outcomeOf_not_timeout _ _, hdn, ans, hans, by rw [hcont]⟩⟩
+        · intro a s; rw [hdown]; simp [isCallFrom]
+        · intro s
+          rw [hdown]
+          simp only [countP_cons_toNat, List.countP_nil, complReplyKey, isReply, outcomeOf_not_timeout,
+            Bool.not_false, Bool.and_true]
+          omega
+        · exact h1
+        · exact h2
+        · exact h3
+        · intro s hs; rw [List.append_nil] at hs; exact h4 s hs
+      | none =>
+        have hK : 1 ≤ (net.cl c).completions.countP (complKey rs) := by
+          apply Classical.byContradiction
+          intro hn
+          have h0 : (net.cl c).completions.countP (complKey r0.serial) = 0 := by rw [hrs]; omega
+          have := inv.pend c r0 hr0 h0
+          rw [hrs, hp] at this
+          cases this
+        rw [Net.upd_congr net c _ (fun cl => callerMoved cl rest (net.cl c).pending [] [rs])
+          (by simp [receive, complete, callerMoved, hp])]
+        apply inv.caller_move
+        · intro x hx; rw [hdown]; exact List.mem_cons_of_mem _ hx
+        · intro x hx; simp at hx
+        · intro a s; rw [hdown]; simp [isCallFrom]
+        · intro s
+          rw [hdown]
+          simp only [countP_cons_toNat, List.countP_nil, lateKey, isReply]
+          omega
+        · intro r hr hz; rw [List.append_nil] at hz; exact inv.pend c r hr hz
+        · intro s v hv; rw [List.append_nil]; exact inv.pend_inv c s v hv
+        · intro s; rw [List.append_nil]; exact inv.compl_le c s
+        · intro s hs
+          rw [List.append_nil]
+          rw [List.mem_append, List.mem_singleton] at hs
+          rcases hs with hs | hs
+          · exact inv.late_ok c s hs
+          · rw [hs]; exact hK
+
+theorem Inv.step_expire (inv : Inv w net) (c : Nat) (s0 : Nat) : Inv w (step w net (.expire c s0)) := by
+  simp only [step]
+  split
+  case isFalse => exact inv
+  case isTrue hc =>
+  unfold expireStep
+  cases hp : pLookup (net.cl c).pending s0 with
+  | none => exact inv
+  | some v =>
+    simp only
+    obtain ⟨r1, hr1, hs1, hv, hK⟩ := inv.pend_inv c s0 v hp
+    rw [Net.upd_congr net c _ (fun cl => callerMoved cl (net.cl c).down (pErase (net.cl c).pending s0)
+      [(s0, .timedOut)] []) (by simp [callerMoved])]
+    obtain ⟨h1, h2, h3, h4⟩ := inv.after_completion (c := c) (o := (.timedOut : Outcome V)) hK
+    apply inv.caller_move
+    · intro x hx; exact hx
+    · intro x hx
+      rw [List.mem_singleton] at hx; subst hx
+      exact ⟨r1, hr1, hs1, Or.inl rfl⟩
+    · intro a s; rfl
+    · intro s
+      simp [countP_cons_toNat, complReplyKey, Outcome.isTimeout]
+    · exact h1
+    · exact h2
+    · exact h3
+    · intro s hs; rw [List.append_nil] at hs; exact h4 s hs
 
 theorem Inv.step_resolve (inv : Inv w net) (c : Nat) (tok : Nat) (res : Result V) :
     Inv w (step w net (.resolve c tok res)) := by
@@ -218,6 +338,7 @@ theorem Inv.step (inv : Inv w net) (st : Step V) : Inv w (step w net st) := by
   | toBus c => exact inv.step_toBus c
   | toClient c beh => exact inv.step_toClient c beh
   | resolve c tok res => exact inv.step_resolve c tok res
+  | expire c s0 => exact inv.step_expire c s0
 
 theorem Inv.run (inv : Inv w net) (steps : List (Step V)) : Inv w (run w net steps) := by
   induction steps generalizing net with
